@@ -4,7 +4,9 @@ use crate::report::Tier;
 
 pub mod c01;
 pub mod c02;
+pub mod c03;
 pub mod c05;
+pub mod c06;
 pub mod c11;
 pub mod c12;
 pub mod c15;
@@ -12,6 +14,7 @@ pub mod c16;
 pub mod c33;
 pub mod c41;
 pub mod c42;
+pub mod cfgdiff;
 pub mod shapes;
 
 type CheckFn = fn(Tier, u64) -> i32;
@@ -20,12 +23,16 @@ fn table() -> Vec<(&'static str, CheckFn)> {
     vec![
         ("C01", c01::run),
         ("C02", c02::run),
+        ("C03", c03::run),
         ("C05", c05::run),
+        ("C06", c06::run),
+        ("C07", cfgdiff::run_c07),
         ("C11", c11::run_c11),
         ("C12", c12::run),
         ("C14", c11::run_c14),
         ("C15", c15::run),
         ("C16", c16::run),
+        ("C31", c03::run_c31),
         ("C33", c33::run),
         ("C41", c41::run),
         ("C42", c42::run),
@@ -46,8 +53,20 @@ pub fn run(id: &str, tier: Tier, seed: u64) -> i32 {
     2
 }
 
-pub fn worker(_args: &[String]) -> i32 {
-    2
+/// `qe-verif worker <check> <tier> <seed> <shard> <nshards> [extra...]`
+pub fn worker(args: &[String]) -> i32 {
+    let check = args.first().map(|s| s.as_str()).unwrap_or("");
+    let tier = if args.get(1).map(|s| s.as_str()) == Some("thorough") { Tier::Thorough } else { Tier::Quick };
+    let seed: u64 = args.get(2).and_then(|s| s.parse().ok()).unwrap_or(1);
+    let shard: usize = args.get(3).and_then(|s| s.parse().ok()).unwrap_or(0);
+    let nshards: usize = args.get(4).and_then(|s| s.parse().ok()).unwrap_or(1);
+    match check {
+        "C06" | "C07" => cfgdiff::worker(check, tier, seed, shard, nshards),
+        _ => {
+            eprintln!("no worker for {}", check);
+            2
+        }
+    }
 }
 
 pub fn replay(path: &str) -> i32 {
